@@ -135,6 +135,9 @@ func (w *webWriter) flushWithTrailer() {
 		if err := w.writeTrailer(); err != nil {
 			return // nothing
 		}
+		if c, ok := w.resp.(io.Closer); ok {
+			c.Close() // flush the partial base64 quantum
+		}
 	} else {
 		// Trailers-only response, trailers are sent as headers.
 		hdr := w.Header()
